@@ -126,9 +126,13 @@ pub fn run() {
                     // the channel is connected (a sender survives) but nothing complete is queued: whatever the crashed sender left
                     // behind, a timed receive must wait its time before it says 'empty'
                     let mut waits = Vec::new();
-                    for _ in 0..2 {
+                    for round in 0..2 {
                         let t0 = std::time::Instant::now();
-                        match rx.try_recv_timeout(std::time::Duration::from_millis(250)) {
+                        mark(&format!("obs {}.{}", id, round));
+                        let r0 = rx.try_recv_timeout(std::time::Duration::from_millis(250));
+                        mark(&format!("endobs {}.{}", id, round));
+                        log.push(json!({"round": [round, if r0.is_ok() { "OMsg" } else { "other" }]}));
+                        match r0 {
                             Ok((d, mut ch, _)) => {
                                 for c in ch.iter_mut() {
                                     drop(c.to_sender());
